@@ -2,7 +2,7 @@
    each is the property itself as a decision procedure over what the harness
    recorded (op, observation, digest of the server tables after the op), written
    from the property text and independent of model/Hub.v's step function. *)
-From Coq Require Import List NArith Bool.
+From Coq Require Import List NArith ZArith Bool.
 From Verif Require Export corr.Run_Hub.
 Import ListNotations.
 Open Scope N_scope.
@@ -18,7 +18,7 @@ Definition is_client_d (x : sd) : bool := N.eqb x.(d_kind) 0.
 Definition perm_d (x : sd) (p : N) : bool :=
   if is_virtual_d x then true
   else match x.(d_perms) with None => negb (N.eqb p 6) | Some m => N.testbit m p end.
-Definition empty_digest : digest := mkdigest [] [] [] [] [] [] [] [] [] 0 0 0 0 0 0 0.
+Definition empty_digest : digest := mkdigest [] [] [] [] [] [] [] [] [] 0 0 0 0 0 0 0 [].
 Definition nlen {A} (l : list A) : N := N.of_nat (length l).
 Definition room_entry (dg : digest) (k : N * N) : option (list N * list N) :=
   match find (fun e => pair_eqb (fst (fst e)) k) dg.(g_rooms) with Some (_, m, i) => Some (m, i) | None => None end.
@@ -26,7 +26,7 @@ Definition set_eqb (a b : list N) : bool := forallb (fun x => nmem x b) a && for
 Definition popcount3 (m : N) : N := (if N.testbit m 0 then 1 else 0) + (if N.testbit m 1 then 1 else 0) + (if N.testbit m 2 then 1 else 0).
 Definition op_conn (o : op) : option N :=
   match o with
-  | OHello c _ | OJoin c _ _ _ | OMsg c _ _ | OCtl c _ _ | OBye c | OInternal c _ | OMedia c _ _ _ _ | OTransient c _ _ _ => Some c
+  | OHello c _ | OHelloAborted c _ _ | OJoin c _ _ _ | OMsg c _ _ | OCtl c _ _ | OBye c | OInternal c _ | OMedia c _ _ _ _ | OTransient c _ _ _ => Some c
   | _ => None
   end.
 Definition all_msgs (ob : obs) : list (N * smsg) := flat_map (fun e => map (fun m => (fst e, m)) (snd e)) ob.(o_recv).
@@ -62,6 +62,8 @@ Fixpoint limits_ok_from (b : N) (limits : list N) (dg : digest) : bool :=
       let mine := filter (fun x => N.eqb x.(d_backend) b && is_client_d x) dg.(g_sessions) in
       (if N.eqb l 0 then forallb (fun x => negb x.(d_counted)) mine
        else (nlen mine <=? l) && forallb (fun x => x.(d_counted)) mine)
+      (* the backend's own count is the number of those sessions: no slot is held by a session that is gone *)
+      && N.eqb (nth (N.to_nat b) dg.(g_counts) 0) (nlen (filter (fun x => x.(d_counted)) mine))
       && limits_ok_from (b + 1) r dg
   end.
 
@@ -151,6 +153,14 @@ Definition hello_creates (nb : N) (h : hello) : option (N * N * N) :=   (* kind,
   match h with
   | HV1 b u false => if b <? nb then Some (0, b, u) else None
   | HInternal b 0 _ _ => if b <? nb then Some (1, b, 0) else None
+  | HV2 b u t =>
+      (* "a protocol 2.0 token signed with an RSA/ECDSA/Ed25519 key published by that configured backend
+         and currently time-valid" (clocks may differ by a minute) *)
+      if (b <? nb) && (t.(t_alg) <? 7) && N.eqb t.(t_signer) (b + 1)
+         && match t.(t_exp) with Some e => (-60 <? e)%Z | None => false end
+         && match t.(t_iat) with Some i => (i <=? 60)%Z | None => true end
+         && match t.(t_nbf) with Some n => (n <=? 60)%Z | None => true end
+      then Some (0, b, u) else None
   | _ => None
   end.
 
@@ -178,7 +188,7 @@ Definition step_C01 (nb : N) (pd : digest) (o : op) (ob : obs) (dg : digest) : b
                        | _ => true end) (all_msgs ob)
   (* before a successful hello every other request is answered with an error and changes nothing *)
   && match o with
-     | OHello _ _ => true
+     | OHello _ _ | OHelloAborted _ _ _ => true
      | _ => match op_conn o with
             | Some c => match sd_of_conn pd c with
                         | Some _ => true
@@ -206,7 +216,7 @@ Definition same_backend (pd dg : digest) (rb : N) (sid : N) : bool :=
 Definition op_backend (pd : digest) (o : op) : option N :=
   match o with
   | OApi b _ _ _ => Some b
-  | OHello _ (HV1 b _ _) | OHello _ (HInternal b _ _ _) => Some b
+  | OHello _ (HV1 b _ _) | OHello _ (HV2 b _ _) | OHello _ (HInternal b _ _ _) => Some b
   | OHello _ (HResume (IdPriv n)) => match find_sd pd n with Some x => Some x.(d_backend) | None => None end
   | OHello _ _ => None
   | _ => match op_conn o with
@@ -397,6 +407,10 @@ Definition smsg_tags (l : list smsg) : list (N * N) :=
 
 (* messages that the reference routing addresses to sessions without a connection are what a
    later resume must deliver, in order, once *)
+(* "repeated chat-refresh notices may be merged into one": the message with tag 77 is the driver's chat-refresh notice *)
+Definition qadd (l : list (N * N)) (e : N * N) : list (N * N) :=
+  if pair_eqb e (0, 77) && existsb (pair_eqb (0, 77)) l then l else l ++ [e].
+
 Definition update_queue (pd : digest) (o : op) (q : alist (list (N * N))) : alist (list (N * N)) :=
   match o with
   | OMsg c to tag | OCtl c to tag =>
@@ -407,7 +421,7 @@ Definition update_queue (pd : digest) (o : op) (q : alist (list (N * N))) : alis
           let targets := if N.eqb kindn 1 && negb (control_allowed s) then [] else route_spec pd s to in
           fold_left (fun acc t => match find_sd pd (fst t) with
                                   | Some x => match x.(d_conn) with
-                                              | None => aset acc (fst t) ((match aget acc (fst t) with Some l => l | None => [] end) ++ [(kindn, tag)])
+                                              | None => aset acc (fst t) (qadd (match aget acc (fst t) with Some l => l | None => [] end) (kindn, tag))
                                               | Some _ => acc end
                                   | None => acc end) targets q
       end
@@ -441,6 +455,13 @@ Definition step_C06 (ps : pstate) (o : op) (ob : obs) (dg : digest) : bool :=
                     | _ =>
                       match find_sd dg n with
                       | Some y => optN_eqb y.(d_conn) (Some c) && opt_pair_eqb y.(d_room) x.(d_room) && N.eqb y.(d_pending) 0
+                                  (* ... including the notice that it is in no room any more: what the client can
+                                     reconstruct from the room events it got on all its connections is the server's room *)
+                                  && match y.(d_room), aget (update_views pd dg ob ps.(ps_view)) n with
+                                     | None, Some (Some _) => false
+                                     | Some k, Some (Some (r, _)) => N.eqb (snd k) r
+                                     | Some _, Some None => false
+                                     | _, _ => true end
                       | None => false end
                       (* a second resume takes over: the previous connection is told and closed *)
                       && match x.(d_conn) with
